@@ -5,6 +5,7 @@ import (
 	"fmt"
 	"os"
 	"runtime"
+	"sort"
 	"strconv"
 	"strings"
 	"sync"
@@ -51,6 +52,57 @@ func unhex(s string) string {
 
 // ---------------------------------------------------------------- S: structure of the copy
 
+// heapKinds reports what the dumped heap really contains (for the evidence distribution).
+func heapKinds(d *heap) []string {
+	m := map[string]bool{}
+	ost := 0
+	for i := range d.Nodes {
+		n := &d.Nodes[i]
+		switch n.Kind {
+		case "D":
+			m["dclStash"] = true
+		case "F":
+			m["fnStash"] = true
+		case "E":
+			ost++
+		case "O":
+			switch n.PKind {
+			case 'B':
+				m["bound-function"] = true
+			case 'A':
+				m["arguments-object"] = true
+				for _, nm := range n.Names {
+					if nm == "" {
+						m["arguments-unlinked-index"] = true
+					}
+				}
+			case 'C':
+				m["node-function"] = true
+			}
+			if !n.Ext {
+				m["non-extensible"] = true
+			}
+			for _, p := range n.Props {
+				if p.Kind == 'a' && n.PKind != 'C' && n.PKind != 'G' && p.Name != "stack" {
+					m["user-accessor"] = true
+				}
+			}
+		}
+	}
+	if ost > 1 {
+		m["with-objectStash"] = true
+	}
+	var ks []string
+	for k := range m {
+		ks = append(ks, "S:heap:"+k)
+	}
+	sort.Strings(ks)
+	ks = append(ks, fmt.Sprintf("S:heap:nodes<%d", (len(d.Nodes)/200+1)*200))
+	return ks
+}
+
+var heapStats sync.Map // line -> []string
+
 func lineS(depth int, src string) (string, bool) {
 	vm, bad := build(src)
 	if bad != "" {
@@ -58,7 +110,9 @@ func lineS(depth int, src string) (string, bool) {
 	}
 	d := otto.VerifC17Dump(vm)
 	toks := rawTokens(d)
-	return fmt.Sprintf("S %d src:%s cfg:%s %s", depth, hex.EncodeToString([]byte(src)), otto.VerifC17Settings(vm), strings.Join(toks, " ")), true
+	line := fmt.Sprintf("S %d src:%s cfg:%s %s", depth, hex.EncodeToString([]byte(src)), otto.VerifC17Settings(vm), strings.Join(toks, " "))
+	heapStats.Store(line, heapKinds(d))
+	return line, true
 }
 
 func implS(f []string) string {
@@ -131,11 +185,11 @@ func expI(hsrc, msrc string) string {
 		return bad
 	}
 	r := runTok(vm, msrc)
-	return "same:" + r + ":" + observe(otto.VerifC17Dump(vm))
+	return "same:" + r + ":" + observe(otto.VerifC17Dump(vm)) + ":cp1"
 }
 
 func implI(f []string) string {
-	depth, _ := strconv.Atoi(f[1])
+	// f[1] = parents: copy i+1 is made from runtime parents[i] (0 = the original)
 	side, _ := strconv.Atoi(f[2])
 	hsrc, msrc := unhex(f[3]), unhex(f[4])
 	vm, bad := build(hsrc)
@@ -143,8 +197,12 @@ func implI(f []string) string {
 		return bad
 	}
 	chain := []*otto.Otto{vm}
-	for i := 0; i < depth; i++ {
-		cp, ok := safeCopy(chain[len(chain)-1])
+	for _, ps := range strings.Split(f[1], ".") {
+		pi, _ := strconv.Atoi(ps)
+		if pi >= len(chain) {
+			return "bad-request"
+		}
+		cp, ok := safeCopy(chain[pi])
 		if !ok {
 			return "panic"
 		}
@@ -170,6 +228,19 @@ func implI(f []string) string {
 		fmt.Fprintln(os.Stderr, "REPL", canonText(otto.VerifC17Dump(rvm)))
 	}
 	out := iso + ":" + res + ":" + observe(dm)
+	// a copy taken AFTER the mutation is again equivalent to the mutated runtime, and taking it changes nothing
+	mid := identityText(dm)
+	cp, ok := safeCopy(chain[side])
+	switch {
+	case !ok:
+		out += ":cppanic"
+	case observe(otto.VerifC17Dump(cp)) != observe(dm):
+		out += ":cpdiffers"
+	case identityText(otto.VerifC17Dump(chain[side])) != mid:
+		out += ":cpchanged"
+	default:
+		out += ":cp1"
+	}
 	runtime.KeepAlive(chain)
 	return out
 }
@@ -189,6 +260,23 @@ func implP(f []string) string {
 			vm = cp
 		}
 		v, err := vm.Run(`g()`)
+		if err != nil {
+			return "throw"
+		}
+		s, _ := v.ToString()
+		return s
+	case "evalid":
+		// eval rebound to another FUNCTION before Copy(): no panic, but the copy's direct-eval identity is the other function
+		depth, _ := strconv.Atoi(f[2])
+		vm, _ := build(`var keep=eval; eval=function(){return 0}`)
+		for i := 0; i < depth; i++ {
+			cp, ok := safeCopy(vm)
+			if !ok {
+				return "panic"
+			}
+			vm = cp
+		}
+		v, err := vm.Run(`eval=keep; (function(){var a=5; return eval("a")})()`)
 		if err != nil {
 			return "throw"
 		}
@@ -216,6 +304,7 @@ func implC17(line string) string {
 func genC17(c *h.Ctx) {
 	for d := 0; d <= 3; d++ {
 		c.Add(fmt.Sprintf("P caller %d", d), "probe:caller")
+		c.Add(fmt.Sprintf("P evalid %d", d), "probe:evalid")
 	}
 	// fixed seeds: one per feature, then the listed deviations
 	for i, src := range fixedHistories() {
@@ -231,20 +320,29 @@ func genC17(c *h.Ctx) {
 		kind     byte
 		depth    int
 		side     int
+		parents  string
 		allowDev bool
 		line     string
 		keys     []string
 		feats    []string
 	}
 	var jobs []*job
-	nS := c.N(500, 12000)
+	nS := c.N(2000, 20000)
 	for i := 0; i < nS; i++ {
 		jobs = append(jobs, &job{r: c.Rng.Fork(), kind: 'S', depth: 1 + c.Rng.Intn(3), allowDev: c.Rng.Chance(15)})
 	}
-	nI := c.N(2500, 60000)
+	nI := c.N(8000, 100000)
 	for i := 0; i < nI; i++ {
 		depth := 1 + c.Rng.Intn(3)
-		jobs = append(jobs, &job{r: c.Rng.Fork(), kind: 'I', depth: depth, side: c.Rng.Intn(depth + 1)})
+		var ps []string
+		for k := 0; k < depth; k++ {
+			if c.Rng.Chance(60) {
+				ps = append(ps, strconv.Itoa(k)) // copy of the newest (chain)
+			} else {
+				ps = append(ps, strconv.Itoa(c.Rng.Intn(k+1))) // copy of any earlier runtime (siblings)
+			}
+		}
+		jobs = append(jobs, &job{r: c.Rng.Fork(), kind: 'I', depth: depth, parents: strings.Join(ps, "."), side: c.Rng.Intn(depth + 1)})
 	}
 	ch := make(chan *job, 256)
 	var wg sync.WaitGroup
@@ -267,7 +365,7 @@ func genC17(c *h.Ctx) {
 					msrc := g.mutation()
 					exp := expI(hsrc, msrc)
 					if strings.HasPrefix(exp, "same:") {
-						j.line = fmt.Sprintf("I %d %d %s %s exp:%s", j.depth, j.side, hex.EncodeToString([]byte(hsrc)), hex.EncodeToString([]byte(msrc)), exp)
+						j.line = fmt.Sprintf("I %s %d %s %s exp:%s", j.parents, j.side, hex.EncodeToString([]byte(hsrc)), hex.EncodeToString([]byte(msrc)), exp)
 						j.keys = []string{"I:random", fmt.Sprintf("I:depth%d:side%d", j.depth, j.side)}
 						j.feats = g.features()
 					}
@@ -284,6 +382,9 @@ func genC17(c *h.Ctx) {
 		if j.line == "" {
 			c.Dist[string(j.kind)+":skipped"]++
 			continue
+		}
+		if hk, ok := heapStats.Load(j.line); ok {
+			j.keys = append(j.keys, hk.([]string)...)
 		}
 		c.Add(j.line, j.keys...)
 		for _, k := range j.feats {
